@@ -511,8 +511,8 @@ def two_statements(p):
 
 @op("50_statement_after_control", "TOO_MANY_INSTR")
 def stmt_after_control(p):
-    for i in spread(lines_of(p, "ctrl")):
-        if p.lines[i].meta.get("kw") in ("if", "while") and i + 1 < len(p.lines) and p.lines[i + 1].kind == "stmt":
+    for i in spread_by_kind(p, lines_of(p, "ctrl"), 6):
+        if p.lines[i].meta.get("kw") in ("if", "while", "else", "else if") and i + 1 < len(p.lines) and p.lines[i + 1].kind == "stmt":
             q = p.clone()
             body = q.lines.pop(i + 1)
             q.lines[i].parts = q.lines[i].parts + [" "] + body.parts[1:]
